@@ -86,6 +86,16 @@ CHECKS = {
    note="Necessary structural conditions of the round trip, decided for all configurations because they are facts about the "
         "code's field tables. Not decided: printed precision versus tolerance, bead names/types, multi-frame ordering, xml "
         "topology reader. Known findings (listed, exit 0): Table error column not restored; PDB writer emits no CRYST1."),
+ "C03": dict(cat="other", ref="DESIGN.md section 4 C03",
+   technique="CFG required-edge / dominance analysis of the four search kernels with predicate splitting on do_exclusions_, def-use resolution of the compared distances to BCShortestConnection calls, interval analysis of the cell index with symbolic N, canonical-form comparison of the grid set-up, sibling agreement",
+   text="Necessary conditions decided for all configurations: in every kernel an insertion is reachable only through cutoff-true, "
+        "exclusion-false (when enabled), callback-true and not-yet-stored edges, in that dominance order and on the same beads; "
+        "each tested distance is the minimum-image distance of two distinct beads of the tuple (strict <) and the stored vectors "
+        "are those vectors in creator order; grid searches test a bead before inserting it; self tuples are skipped; cells per "
+        "direction come from the box heights, neighbour offsets shrink correctly for small grids, pair and 3-body grid agree; "
+        "every cell index is proved within [0,N-1].",
+   note="Not decided (needs execution/geometry): completeness of the cell scan for all cell counts and triclinic shapes, "
+        "exactly-once delivery across cells, construction of exclusions from bonded interactions."),
 }
 NA = {
 }
